@@ -16,6 +16,7 @@ import (
 	"fmt"
 	"io"
 	"runtime"
+	"strings"
 	"sync"
 	"sync/atomic"
 
@@ -147,25 +148,34 @@ func stressRoundTrips(sk stressKeys, g, it int) (res string) {
 		}
 	}
 	// 3. armored detached signature
-	asig, err := saltpack.SignDetachedArmor62(ver, pt, sk.signer, "")
+	brand := fmt.Sprintf("G%dX", g) // every goroutine its own brand: frames are built from shared constants
+	asig, err := saltpack.SignDetachedArmor62(ver, pt, sk.signer, brand)
 	if err != nil {
 		return "SignDetachedArmor62: " + err.Error()
 	}
-	if _, _, err := saltpack.Dearmor62VerifyDetached(saltpack.CheckKnownMajorVersion, pt, asig, sk.ring); err != nil {
-		return fmt.Sprintf("armored detached signature of a genuine %d-byte message does not verify: %v", len(pt), err)
+	if _, gotBrand, err := saltpack.Dearmor62VerifyDetached(saltpack.CheckKnownMajorVersion, pt, asig, sk.ring); err != nil {
+		return fmt.Sprintf("armored detached signature of a genuine %d-byte message (brand %q) does not verify: %v — text starts %q", len(pt), brand, err, trunc(asig, 60))
+	} else if gotBrand != brand {
+		return fmt.Sprintf("dearmoring returned brand %q for a text armored under brand %q", gotBrand, brand)
+	}
+	if want := saltpack.MakeArmorHeader(saltpack.MessageTypeDetachedSignature, brand); !strings.HasPrefix(asig, want+".") {
+		return fmt.Sprintf("armored text under brand %q does not start with its own header %q: %q", brand, want, trunc(asig, 70))
 	}
 	// 4. armored encryption, streaming both ways, tiny reads
 	var b4 bytes.Buffer
-	we, err := saltpack.NewEncryptArmor62Stream(ver, slowWriter{&b4}, sk.box, []saltpack.BoxPublicKey{sk.box.GetPublicKey()}, "")
+	we, err := saltpack.NewEncryptArmor62Stream(ver, slowWriter{&b4}, sk.box, []saltpack.BoxPublicKey{sk.box.GetPublicKey()}, brand)
 	if err != nil {
 		return "NewEncryptArmor62Stream: " + err.Error()
 	}
 	if err := writePieces(we, pt, 100); err != nil {
 		return "encrypt stream: " + err.Error()
 	}
-	_, dr, _, err := saltpack.NewDearmor62DecryptStream(saltpack.CheckKnownMajorVersion, &slowReader{bytes.NewReader(b4.Bytes()), 7}, sk.ring)
+	_, dr, gotBrand4, err := saltpack.NewDearmor62DecryptStream(saltpack.CheckKnownMajorVersion, &slowReader{bytes.NewReader(b4.Bytes()), 7}, sk.ring)
 	if err != nil {
 		return fmt.Sprintf("NewDearmor62DecryptStream of a genuine %d-byte message: %v", len(pt), err)
+	}
+	if gotBrand4 != brand {
+		return fmt.Sprintf("dearmoring an encrypted message armored under brand %q returned brand %q", brand, gotBrand4)
 	}
 	got, err = drain(dr, 11)
 	if f := same("armored decryption (stream)", got, err); f != "" {
@@ -193,7 +203,7 @@ func stressRoundTrips(sk stressKeys, g, it int) (res string) {
 	}
 	// 6. the bare armor and BaseX streams, 3-byte reads
 	var b6 bytes.Buffer
-	wa, err := saltpack.NewArmor62EncoderStream(slowWriter{&b6}, saltpack.MessageTypeEncryption, "")
+	wa, err := saltpack.NewArmor62EncoderStream(slowWriter{&b6}, saltpack.MessageTypeEncryption, brand)
 	if err != nil {
 		return "NewArmor62EncoderStream: " + err.Error()
 	}
